@@ -502,6 +502,22 @@ def timers(cx):
     bb = self_blocks(th, "MsgBeat")
     ok, ne = g.after_edge_must_pass(lambda lits: any(ht(l) for l in lits), lambda b: b in bb)
     cx.check(ok and ne >= 1 and bool(bb), "leader:beat", "tick_heartbeat: every heartbeat_timeout ticks a self-addressed MsgBeat is stepped")
+    # ... and the heartbeat timer is consulted on every tick on which the node is still leader: the lease branch (check
+    # quorum, transfer abort) must not return, or short-circuit, past it -- a beat that falls on a lease tick would
+    # slip, and with heartbeat_tick == election_tick - 1 every beat falls on one
+    hb = lambda l: l[0] == "is" and l[1][0] == "bin" and l[1][1] == "Lt" and is_f(l[1][2], "RaftCore.heartbeat_elapsed") and is_f(l[1][3], "RaftCore.heartbeat_timeout")
+    tested = set()
+    st_lit = None
+    for n_ in range(len(g.nodes)):
+        for _, ls in g.edges[n_] or []:
+            if any(hb(l) for l in ls):
+                tested.add(g.nodes[n_][0])
+            for l in ls:
+                if l[0] in ("in", "notin") and is_f(l[1], STATE) and st_lit is None:
+                    st_lit = ("in", l[1], frozenset(["Leader"]), l[3] if len(l) > 3 else None)
+    if not g.truncated:
+        okc = bool(tested) and all(g.dominated_by_block((rb, "term"), lambda b: b in tested, assume=[st_lit] if st_lit else None) for rb in rbh)
+        cx.check(okc, "leader:beat:every-tick", "tick_heartbeat: the heartbeat timer is tested on every path on which the node is still leader (the lease branch neither returns nor short-circuits past it)")
     # MsgBeat arm broadcasts heartbeats
     okb = any(_in_msg_arm(cx, c, {"MsgBeat"}, depth=0) for c in cx.prog.call_sites_of("Raft::bcast_heartbeat")) or \
         any(_in_msg_arm(cx, c, {"MsgBeat"}, depth=0) for c in cx.prog.call_sites_of("Raft::bcast_heartbeat_with_ctx"))
